@@ -274,13 +274,29 @@ pub fn check_update(c: &UpdCase) -> V {
             }
             Some(ti) => {
                 if outcomes[*ti].result.is_ok() {
-                    // command and expectation lines verbatim (position of `[n]` not asserted)
-                    let strip = |b: &[&str]| -> Vec<String> {
-                        b[1..b.len() - 1]
-                            .iter()
-                            .filter(|l| !(l.starts_with('[') && l.ends_with(']') && l[1..l.len() - 1].chars().all(|c| c.is_ascii_digit()) && l.len() > 2))
-                            .map(|l| l.to_string())
-                            .collect()
+                    // command and expectation lines verbatim (position of `[n]` not asserted; lines
+                    // written before the `$` line are expectations too and may be moved behind it,
+                    // so command lines and the other lines are compared as two sequences)
+                    let strip = |b: &[&str]| -> (Vec<String>, Vec<String>) {
+                        let mut cmd = vec![];
+                        let mut other = vec![];
+                        let mut in_cmd = false;
+                        for l in b[1..b.len() - 1].iter() {
+                            if l.starts_with('[') && l.ends_with(']') && l.len() > 2 && l[1..l.len() - 1].chars().all(|c| c.is_ascii_digit()) {
+                                in_cmd = false;
+                                continue;
+                            }
+                            if cmd.is_empty() && l.starts_with("$ ") {
+                                in_cmd = true;
+                                cmd.push(l.to_string());
+                            } else if in_cmd && l.starts_with("> ") {
+                                cmd.push(l.to_string());
+                            } else {
+                                in_cmd = false;
+                                other.push(l.to_string());
+                            }
+                        }
+                        (cmd, other)
                     };
                     if strip(orig_block) != strip(new_block) {
                         return fail(format!(
@@ -351,8 +367,18 @@ fn case_strategy() -> BoxedStrategy<UpdCase> {
         vec(prop_oneof![2 => Just(0u8), 1 => Just(1u8), 1 => Just(2u8)], 8),
         any::<bool>(),
         prop_oneof![1 => Just(vec![]), 2 => vec(proptest::sample::select(CHANGED_LINES.to_vec()).prop_map(String::from), 1..4)],
+        vec((any::<u16>(), scrut_blk()), 2),
     )
-        .prop_map(|(mut doc, mut outcomes, tail_prose, changed)| {
+        .prop_map(|(mut doc, mut outcomes, tail_prose, changed, extra)| {
+            // an update needs tests: top up to two scrut blocks with a command
+            for (pos, blk) in extra {
+                if doc.blocks.iter().filter(|b| matches!(b, Blk::Scrut(_))).count() >= 2 {
+                    break;
+                }
+                let at = pick_idx(pos, doc.blocks.len() + 1);
+                doc.blocks.insert(at, Blk::Scrut(blk));
+                doc.gaps.insert(at.min(doc.gaps.len()), 1);
+            }
             // make the interesting shape frequent: first test passes, second fails, text at the end
             if outcomes.len() >= 2 {
                 outcomes[0] = 0;
